@@ -32,8 +32,39 @@ impl AsyncRead for AsyncChunked {
 }
 
 fn hx(b: &[u8]) -> String { if b.is_empty() { "~".into() } else { hex(b) } }
-fn fnv(b: &[u8]) -> u64 { let mut h: u64 = 0xcbf29ce484222325; for x in b { h ^= *x as u64; h = h.wrapping_mul(0x100000001b3); } h }
+pub fn fnv(b: &[u8]) -> u64 { let mut h: u64 = 0xcbf29ce484222325; for x in b { h ^= *x as u64; h = h.wrapping_mul(0x100000001b3); } h }
 fn hxl(b: &[u8]) -> String { if b.len() > 64 { format!("#{}:{:016x}", b.len(), fnv(b)) } else { hx(b) } }
+
+/// Pattern bytes and the compact `hexz` form: copies of `harness/src/c02.rs::{pat_byte, unhexz}`.
+pub fn pat_byte(seed: u32, i: usize) -> u8 {
+    let x = (i as u32).wrapping_mul(2654435761).wrapping_add(seed);
+    ((x >> 24) ^ (x >> 11)) as u8
+}
+
+pub fn unhexz(s: &str) -> Vec<u8> {
+    const LIMIT: usize = 64 * 1024 * 1024;
+    if !s.bytes().any(|c| c == b'_' || c == b'Z' || c == b'Y') { return unhex(s); }
+    let mut out = Vec::new();
+    for seg in s.split('_') {
+        if let Some(r) = seg.strip_prefix('Z') {
+            if let Some((l, sd)) = r.split_once('.') {
+                if let (Ok(l), Ok(sd)) = (l.parse::<usize>(), sd.parse::<u64>()) {
+                    if l <= LIMIT { out.extend((0..l).map(|i| pat_byte(sd as u32, i))); }
+                }
+            }
+        } else if let Some(r) = seg.strip_prefix('Y') {
+            if let Some((c, h)) = r.split_once('.') {
+                if let Ok(c) = c.parse::<usize>() {
+                    let b = unhex(h);
+                    if c.saturating_mul(b.len()) <= LIMIT { for _ in 0..c { out.extend_from_slice(&b); } }
+                }
+            }
+        } else {
+            out.extend(unhex(seg));
+        }
+    }
+    out
+}
 
 fn canon_request(req: &Request) -> String {
     let mut names: BTreeSet<Vec<u8>> = BTreeSet::new();
@@ -78,7 +109,7 @@ pub fn run(input: &str, output: &str) {
     for line in text.lines() {
         let f: Vec<&str> = line.split('\t').collect();
         if f.len() < 4 { out.push_str("UNSUPPORTED\n"); continue; }
-        let bytes = unhex(f[1]);
+        let bytes = unhexz(f[1]);
         let chunks = apply_cuts(&bytes, f[2]);
         let peer = match f[3].split_once('|') { Some((ip, port)) => SocketAddr::new(ip.parse().unwrap(), port.parse().unwrap()), None => { out.push_str("UNSUPPORTED\n"); continue; } };
         let r = std::panic::catch_unwind(std::panic::AssertUnwindSafe(|| rt.block_on(async {
